@@ -20,6 +20,7 @@ Consequences:
 import copy
 import json
 import os
+import re
 
 HERE = os.path.dirname(os.path.abspath(__file__))
 KNOWN_PATH = os.path.join(HERE, 'known_fns.json')
@@ -93,7 +94,104 @@ def rename_fields_back(j, known_adts):
     return {'%s.%s' % (p, on): nn for (p, vn, i), (nn, on) in ren.items()}
 
 
-def effective_known(j, known):
+def _wrapper_target(b):
+    """callee dict when body b does nothing but hand its parameters, in order, to ONE crate-local function and return
+    that function's result (`fn from(v) -> S { S::from_policy(v) }`); else None"""
+    live = [blk for blk in b['blocks'] if not blk.get('cleanup')]
+    calls = [blk for blk in live if blk['term']['k'] == 'call']
+    if len(calls) != 1 or any(blk['term']['k'] in ('switch', 'assert') for blk in live) or len(live) > 4:
+        return None
+    t = calls[0]['term']
+    cal = t.get('callee') or {}
+    if not cal.get('local') or cal.get('trait_method') or cal.get('as_value') or t.get('dest') is None or t['dest']['p']:
+        return None
+    n = b.get('arg_count', 0)
+    if len(t.get('args', [])) != n:
+        return None
+    defs = {}
+    for blk in live:
+        for st in blk['stmts']:
+            if st.get('k') != 'assign' or st['place']['p']:
+                return None
+            rv = st['rv']
+            src = None
+            if rv['k'] == 'use' and rv['op'].get('k') in ('copy', 'move') and not rv['op']['place']['p']:
+                src = rv['op']['place']['l']
+            elif rv['k'] == 'ref' and all(e['k'] == 'deref' for e in rv['place']['p']):
+                src = rv['place']['l']
+            else:
+                return None
+            if st['place']['l'] in defs:
+                return None
+            defs[st['place']['l']] = src
+    def root(l, d=0):
+        while l in defs and d < 6:
+            l = defs[l]
+            d += 1
+        return l
+    for i, a in enumerate(t['args']):
+        if a.get('k') not in ('copy', 'move') or a['place']['p'] or root(a['place']['l']) != i + 1:
+            return None
+    if root(0) != t['dest']['l'] and t['dest']['l'] != 0:
+        return None
+    return cal
+
+
+def unwrap_known_wrappers(j, known):
+    """A-UNWRAP. A function of the confirmed tree that has become a pass-through wrapper around a new function (`impl
+    From<P> for S { fn from(p) -> S { S::from_policy(p) } }`, `pub fn truncate(..) { self.truncate_inner(..) }`) has
+    only moved its body: the new function is given the old one's name (callers of either end up at the same body) and
+    the empty shell is dropped. Without this the new function would be inlined into callers in other modules, taking
+    module-confined code (clock reads, policy matches) with it. Returns {known path: new path}."""
+    poly = j.get('poly', [])
+    inst = j.get('instances', [])
+    by_path_p = {}
+    for b in poly:
+        by_path_p.setdefault(strip_crate(b['path']), []).append(b)
+    by_path_i = {}
+    for b in inst:
+        by_path_i.setdefault(strip_crate(b['path']), []).append(b)
+    out = {}
+    taken = set()
+    for K, kb in sorted(by_path_p.items()):
+        if K not in known or len(kb) != 1 or kb[0].get('is_closure') or kb[0].get('is_test_item'):
+            continue
+        cal = _wrapper_target(kb[0])
+        if cal is None:
+            continue
+        H = strip_crate(cal.get('path') or '')
+        if not H or H in known or H in taken or H == K or len(by_path_p.get(H, [])) != 1 or by_path_p[H][0].get('is_closure'):
+            continue
+        if by_path_p[H][0].get('arg_count') != kb[0].get('arg_count'):
+            continue
+        ki, hi = by_path_i.get(K, []), by_path_i.get(H, [])
+        if len(ki) > 1 or len(hi) > 1 or (ki and not hi):
+            continue     # generic: several instances each; leave to A-INLINE
+        if ki and _wrapper_target(ki[0]) is None:
+            continue
+        taken.add(H)
+        out[K] = H
+        poly.remove(kb[0])
+        if ki:
+            kid, hid = ki[0]['id'], hi[0]['id']
+            inst.remove(ki[0])
+            def visit(o):
+                if isinstance(o, dict):
+                    if o.get('node') == kid and ('path' in o or 'name' in o):
+                        o['node'] = hid
+                    for v in o.values():
+                        visit(v)
+                elif isinstance(o, list):
+                    for v in o:
+                        visit(v)
+            for b in inst:
+                visit(b['blocks'])
+            visit(j.get('roots', []))
+        j['fns'] = [f for f in j.get('fns', []) if strip_crate(f['path']) != K]
+    return out
+
+
+def effective_known(j, known, forced=None):
     """Known paths plus the functions that took the place of a known function that no longer exists
     (same parent module / impl, same signature): a rename keeps the function a unit of analysis."""
     eff = set(known)
@@ -103,6 +201,10 @@ def effective_known(j, known):
         cur.setdefault(strip_crate(f['path']), {'sig': f.get('sig'), 'parent': strip_crate(f.get('parent') or ''), 'file': (f.get('span') or '').split(':')[0]})
     missing = [k for k in known if k not in cur and known[k].get('sig')]
     used = set()
+    for k_, h_ in (forced or {}).items():
+        used.add(k_)
+        eff.add(h_)
+        renamed[k_] = h_
     for path, info in sorted(cur.items()):
         if path in known or not info.get('sig'):
             continue
@@ -483,6 +585,17 @@ def _parse_cont(caller, ti, D):
     return None
 
 
+def _try_payload(a, variant):
+    """operand held by the ControlFlow value that Try::branch builds from `a`: the success payload `(a as Ok).0` on
+    Continue; the whole value (Result<Infallible, E> is just the Err) on Break"""
+    a = copy.deepcopy(a)
+    if variant in ('Ok', 'Some') and a.get('k') in ('copy', 'move'):
+        adt = 'std::result::Result' if variant == 'Ok' else 'std::option::Option'
+        a['place'] = {'l': a['place']['l'], 'p': list(a['place']['p']) + [{'k': 'downcast', 'variant': variant, 'idx': 0 if variant == 'Ok' else 1, 'adt': adt},
+                                                                             {'k': 'field', 'i': 0, 'name': '0', 'adt': adt, 'variant': variant}]}
+    return a
+
+
 def _peval(caller, nb, start, env, max_blocks=24):
     """Partial evaluation of the caller's continuation on known values.  `nb` is a block under construction whose
     statements have already established env = {local: abstract value}; starting at block index `start`, statements are
@@ -579,7 +692,7 @@ def _peval(caller, nb, start, env, max_blocks=24):
                     cf = ('Break', 1)
                 stmts.extend(bstmts)
                 stmts.append({'k': 'assign', 'place': {'l': t['dest']['l'], 'p': []}, 'rv': {'k': 'agg', 'agg': 'adt', 'adt': 'std::ops::ControlFlow', 'variant': cf[0], 'variant_idx': cf[1], 'is_enum': True, 'fields': ['0'],
-                              'ops': [copy.deepcopy(a)], 'inl_try': av[2]}, 'span': t['span'], 'exp': t.get('exp'), 'inl': 'try'})
+                              'ops': [_try_payload(a, av[2])], 'inl_try': av[2]}, 'span': t['span'], 'exp': t.get('exp'), 'inl': 'try'})
                 env[t['dest']['l']] = cfv
                 cur = t['target']
                 continue
@@ -679,14 +792,15 @@ def _specialise_returns(caller, lo, hi, ret_blocks, off_l, D, target, ret_ty):
                 val = v if v not in (None, 'none-assigned') else None
             if val is None:
                 continue
-            succ = _succs(X)
-            if len(succ) != 1 or succ[0] == ri and xi in done_preds:
+            succ = sorted(set(_succs(X)))
+            # (a block that assigns the result and then tests a drop flag has two successors; both are followed)
+            if not succ or (all(s_ == ri for s_ in succ) and xi in done_preds):
                 continue
             # the region between the assignment and the return block: straight-line tails and the diamonds of
             # conditional drops (drop flags); no calls, no reassignment of the return slot, acyclic, small
             region = []
             okc = True
-            stack = [succ[0]]
+            stack = list(succ)
             while stack and okc:
                 cur = stack.pop()
                 if cur == ri or cur in region:
@@ -728,7 +842,9 @@ def _specialise_returns(caller, lo, hi, ret_blocks, off_l, D, target, ret_ty):
                 for y in set(_succs(blocks[ci])):
                     if y in mapping:
                         _retarget(cc, y, mapping[y])
-            _retarget(X, succ[0], mapping[succ[0]])
+            for s_ in succ:
+                if s_ in mapping:
+                    _retarget(X, s_, mapping[s_])
 
 
 def prune_unreachable(b):
@@ -862,11 +978,25 @@ def rename_back(j, renamed):
             moved.append((new, old))
         elif ol != nl:
             pairs.append((new, old, nl, ol))
-    if not pairs and not moved:
+    # trait-impl methods whose impl block moved to another module (`mod x { impl Iterator for super::T {..} }`): the
+    # printed def path changes as a whole (`x::<impl Iterator for T>::next` for `<T as Iterator>::next`)
+    def lnorm(v):
+        return _re.sub(r"'\w+", "'_", strip_crate(v))
+    exact = {lnorm(new): old for old, new in renamed.items() if old.startswith('<') != new.startswith('<') or ('<impl ' in new) != ('<impl ' in old)}
+    if not pairs and not moved and not exact:
         return
     def fix(v):
         if not isinstance(v, str) or '::' not in v:
             return v
+        if exact:
+            lv = lnorm(v)
+            anon = "'_" in v and not _re.search(r"'[a-zA-Z]", v)     # instance names print lifetimes as '_
+            for nn, old in exact.items():
+                o2 = lnorm(old) if anon else old
+                if lv == nn:
+                    return o2
+                if lv.startswith(nn + '::'):
+                    return o2 + lv[len(nn):]
         sv = _strip_generics(strip_crate(v))
         for (new, old) in moved:
             # free functions and inherent fns without generics in the path: replace the whole path
@@ -1476,31 +1606,43 @@ def alias_consts(j):
     is read as that constant: rules name the constants of the confirmed tree."""
     if j.get('crate') != 'mrecordlog' or not os.path.exists(KNOWN_PATH):
         return {}
-    kc = set(json.load(open(KNOWN_PATH)).get('consts', []))
+    kc = json.load(open(KNOWN_PATH)).get('consts', {})
+    if isinstance(kc, list):
+        kc = {k: None for k in kc}
     if not kc:
         return {}
+    def norm(pth):
+        return re.sub(r"'\w+", "'_", strip_crate(pth))
+    kcn = {norm(k): (k, v) for k, v in kc.items()}
     cur = {}
     for c in j.get('consts', []):
         if c.get('value') is not None:
-            cur.setdefault(strip_crate(c['path']), c['value'])
+            cur.setdefault(norm(c['path']), str(c['value']))
+    # value -> known constants (those still present count with their current value, those that disappeared -- a
+    # function-local const turned into an associated const -- with the value they had on the confirmed tree)
     by_val = {}
-    for pth, v in cur.items():
-        if pth in kc:
-            by_val.setdefault(str(v), []).append(pth)
+    for nk, (k, v) in kcn.items():
+        val = cur.get(nk, v)
+        if val is not None:
+            by_val.setdefault(str(val), []).append(k)
     alias = {}
     for pth, v in cur.items():
-        if pth in kc or '__CALLSITE' in pth:
+        if pth in kcn or '__CALLSITE' in pth:
             continue
         cands = by_val.get(str(v), [])
+        # several known constants of that value: prefer the one that no longer exists (it was most likely replaced)
+        gone = [k for k in cands if norm(k) not in cur]
         if len(cands) == 1:
             alias[pth] = cands[0]
+        elif len(gone) == 1:
+            alias[pth] = gone[0]
     if not alias:
         return {}
     def visit(o):
         if isinstance(o, dict):
-            if o.get('k') == 'const' and o.get('named') and strip_crate(o['named']) in alias:
+            if o.get('k') == 'const' and o.get('named') and norm(o['named']) in alias:
                 o['alias_of'] = o['named']
-                o['named'] = alias[strip_crate(o['named'])]
+                o['named'] = alias[norm(o['named'])]
             for v in o.values():
                 visit(v)
         elif isinstance(o, list):
@@ -1509,6 +1651,285 @@ def alias_consts(j):
     for b in j.get('instances', []) + j.get('poly', []):
         visit(b['blocks'])
     return alias
+
+
+def expand_adt_consts(j):
+    """A-CONST. A struct / enum / tuple valued named constant used as an operand (`return Ok(NOOP_OUTCOME)`) is
+    written out as the aggregate it denotes (the driver lists its field values), so that rules reading the fields of
+    an outcome see `wal_bytes_written: 0` whether it is spelt in place or through a constant. Returns the count."""
+    n = [0]
+    local_adts = {strip_crate(a['path']) for a in j.get('adts', [])}
+    def wanted(o):
+        # constants of the crate's own types only (tracing's callsite metadata, std's Level constants etc. stay opaque)
+        return isinstance(o, dict) and o.get('k') == 'const' and o.get('destructured') and strip_crate(o['destructured'].get('adt') or '') in local_adts
+    for b in j.get('instances', []) + j.get('poly', []):
+        for blk in b['blocks']:
+            out = []
+            def build(dj, span):
+                l = len(b['locals'])
+                b['locals'].append({'ty': dj.get('ty'), 'adt': dj.get('adt')})
+                out.append({'k': 'assign', 'place': {'l': l, 'p': []}, 'rv': agg_of(dj, span), 'span': span, 'exp': None, 'inl': 'const'})
+                return {'k': 'move', 'place': {'l': l, 'p': []}}
+            def agg_of(dj, span):
+                ops = []
+                for f in dj.get('fields', []):
+                    if f.get('destructured'):
+                        ops.append(build(f['destructured'], span))
+                    else:
+                        ops.append({k: v for k, v in f.items() if k != 'destructured'})
+                if dj.get('adt'):
+                    return {'k': 'agg', 'agg': 'adt', 'adt': dj['adt'], 'variant': dj.get('variant'), 'variant_idx': dj.get('variant_idx', 0),
+                            'is_enum': bool(dj.get('is_enum')), 'fields': list(dj.get('names', [])), 'ops': ops, 'from_const': True}
+                return {'k': 'agg', 'agg': 'tuple', 'ops': ops, 'from_const': True}
+            def fix_op(o, span):
+                if wanted(o):
+                    n[0] += 1
+                    return build(o['destructured'], span)
+                return o
+            for st in blk['stmts']:
+                if st.get('k') == 'assign':
+                    rv = st['rv']
+                    span = st.get('span')
+                    if rv['k'] == 'use' and wanted(rv.get('op')) and not st['place']['p']:
+                        n[0] += 1
+                        st['rv'] = agg_of(rv['op']['destructured'], span)
+                    else:
+                        for key in ('op', 'a', 'b'):
+                            if isinstance(rv.get(key), dict):
+                                rv[key] = fix_op(rv[key], span)
+                        if isinstance(rv.get('ops'), list):
+                            rv['ops'] = [fix_op(o, span) for o in rv['ops']]
+                out.append(st)
+            t = blk['term']
+            if isinstance(t.get('args'), list):
+                t['args'] = [fix_op(o, t.get('span')) for o in t['args']]
+            blk['stmts'] = out
+    return n[0]
+
+
+def _reads_local(blk, x):
+    """block blk reads local x (whole or projected) in a statement rvalue or its terminator operands"""
+    hit = [False]
+    def visit(o):
+        if isinstance(o, dict):
+            if o.get('k') in ('copy', 'move') and isinstance(o.get('place'), dict) and o['place'].get('l') == x:
+                hit[0] = True
+            if o.get('k') in ('ref', 'rawptr', 'discr') and isinstance(o.get('place'), dict) and o['place'].get('l') == x:
+                hit[0] = True
+            for v in o.values():
+                visit(v)
+        elif isinstance(o, list):
+            for v in o:
+                visit(v)
+    for st in blk['stmts']:
+        if st.get('k') == 'assign':
+            visit(st['rv'])
+    t = blk['term']
+    visit({k: v for k, v in t.items() if k in ('args', 'discr', 'cond')})
+    return hit[0]
+
+
+def split_tails(j, max_clones=24):
+    """A-SPLIT (tail splitting). `let e = match x { A => E1, B => E2(..) }; cleanup; Err(e)`: the arms meet before the
+    value they computed is used, so a per-arm question ("does the I/O arm leave with the I/O error?") has no answer in the
+    merged graph. Where an enum-valued local has several aggregate definitions and is read in the straight-line tail of
+    the function (blocks after the last branch / call: goto, drop and return terminators only), every block of that tail
+    with several predecessors is cloned per predecessor, so each arm keeps its own copy of the tail down to `return`.
+    No call is ever duplicated (call sites are rule instances), nothing outside such a tail is touched, and a body
+    without that pattern is left as it is. Returns the paths of the bodies changed."""
+    changed = []
+    for b in list(j.get('instances', [])) + list(j.get('poly', [])):
+        blocks = b['blocks']
+        n0 = len(blocks)
+        # tail region: least fixpoint from the return blocks
+        T = set()
+        grew = True
+        while grew:
+            grew = False
+            for i, blk in enumerate(blocks):
+                if i in T or blk.get('cleanup'):
+                    continue
+                k = blk['term']['k']
+                if k == 'return' or (k in ('goto', 'drop') and all(y in T for y in _succs(blk))):
+                    T.add(i)
+                    grew = True
+        if len(T) < 3:
+            continue
+        # candidates: enum-valued locals with >= 2 whole aggregate definitions (in live blocks)
+        defs = {}
+        for i, blk in enumerate(blocks):
+            if blk.get('cleanup'):
+                continue
+            for st in blk['stmts']:
+                if st.get('k') == 'assign' and not st['place']['p']:
+                    rv = st['rv']
+                    defs.setdefault(st['place']['l'], []).append((i, rv))
+        cands = [x for x, ds in defs.items() if x != 0 and len(ds) >= 2 and all(rv['k'] == 'agg' and rv.get('is_enum') for (_i, rv) in ds)
+                 and len({(rv.get('variant'), json.dumps(rv.get('ops'), sort_keys=True)) for (_i, rv) in ds}) >= 2]
+        if not cands:
+            continue
+        def preds_of():
+            pr = {}
+            for i, blk in enumerate(blocks):
+                if blk.get('cleanup'):
+                    continue
+                for y in set(_succs(blk)):
+                    pr.setdefault(y, []).append(i)
+            return pr
+        def tail_of(m):
+            seen, st_ = {m}, [m]
+            while st_:
+                x = st_.pop()
+                for y in _succs(blocks[x]):
+                    if y in T and y not in seen:
+                        seen.add(y)
+                        st_.append(y)
+            return seen
+        pr = preds_of()
+        # merge blocks of the tail below which a candidate is read, the definitions being above (not in the tail below)
+        region = set()
+        for m in sorted(T):
+            if len(pr.get(m, [])) < 2:
+                continue
+            tl = tail_of(m)
+            for x in cands:
+                if any(_reads_local(blocks[q], x) for q in tl) and not any(di in tl for (di, _rv) in defs[x]):
+                    region |= tl
+        if not region:
+            continue
+        # the straight-line blocks above those merges belong to the same per-arm tails (the definitions live there)
+        grew = True
+        while grew:
+            grew = False
+            for i in sorted(T):
+                if i not in region and any(y in region for y in _succs(blocks[i])):
+                    region.add(i)
+                    grew = True
+        clones = 0
+        ok = True
+        snapshot = copy.deepcopy(blocks)
+        while ok:
+            pr = preds_of()
+            todo = [q for q in sorted(region) if len(pr.get(q, [])) >= 2]
+            if not todo:
+                break
+            q = todo[0]
+            for pidx in pr[q][1:]:
+                if clones >= max_clones:
+                    ok = False
+                    break
+                nb = copy.deepcopy(blocks[q])
+                nb['split_of'] = q
+                blocks.append(nb)
+                ni = len(blocks) - 1
+                T.add(ni)
+                region.add(ni)
+                _retarget(blocks[pidx], q, ni)
+                clones += 1
+        if not ok:
+            # too large (chains of diamonds): leave this body as it was
+            b['blocks'] = snapshot
+            continue
+        if clones:
+            _rename_tail_defs(b, region)
+            changed.append(strip_crate(b['path']))
+    return sorted(set(changed))
+
+
+def _rename_place_local(o, x, x2):
+    if isinstance(o, dict):
+        if 'l' in o and 'p' in o and isinstance(o.get('p'), list):
+            if o['l'] == x:
+                o['l'] = x2
+        if o.get('k') == 'index' and o.get('local') == x:
+            o['local'] = x2
+        for v in o.values():
+            _rename_place_local(v, x, x2)
+    elif isinstance(o, list):
+        for v in o:
+            _rename_place_local(v, x, x2)
+
+
+def _rename_tail_defs(b, region):
+    """After tail splitting the region is a forest (every block has one predecessor, roots excepted). A temporary that is
+    assigned in several of its blocks (`_29 = Ok(false)` here, `_29 = Err(e)` there, then `_0 = move _29` in each copy of
+    the join) gets a fresh name per definition, valid from the definition down its subtree: flow-insensitive def-use then
+    sees one definition per use."""
+    blocks = b['blocks']
+    preds = {}
+    for i, blk in enumerate(blocks):
+        if blk.get('cleanup'):
+            continue
+        for y in set(_succs(blk)):
+            preds.setdefault(y, []).append(i)
+    ndefs = {}
+    uses_outside = set()
+    for i, blk in enumerate(blocks):
+        if blk.get('cleanup'):
+            continue
+        for st in blk['stmts']:
+            if st.get('k') == 'assign' and not st['place']['p']:
+                ndefs[st['place']['l']] = ndefs.get(st['place']['l'], 0) + 1
+        t = blk['term']
+        if t['k'] == 'call' and t.get('dest') is not None and not t['dest']['p']:
+            ndefs[t['dest']['l']] = ndefs.get(t['dest']['l'], 0) + 1
+    def subtree(q):
+        seen, st_ = [q], [q]
+        while st_:
+            x = st_.pop()
+            for y in _succs(blocks[x]):
+                if y in region and y not in seen and len(preds.get(y, [])) == 1:
+                    seen.append(y)
+                    st_.append(y)
+        return seen
+    outside_reads = {}
+    for q in sorted(region):
+        blk = blocks[q]
+        si = 0
+        while si < len(blk['stmts']):
+            st = blk['stmts'][si]
+            si += 1
+            if st.get('k') != 'assign' or st['place']['p']:
+                continue
+            x = st['place']['l']
+            if x == 0 or x <= b.get('arg_count', 0) or ndefs.get(x, 0) < 2:
+                continue
+            sub = subtree(q)
+            # every other block that mentions x must be outside the scope only through ANOTHER definition first; keep it
+            # simple: x must not be read anywhere outside the region at all
+            if x not in outside_reads:
+                outside_reads[x] = any(_reads_local(blocks[i], x) for i in range(len(blocks)) if i not in region and not blocks[i].get('cleanup'))
+            if outside_reads[x]:
+                continue
+            x2 = len(b['locals'])
+            b['locals'].append(copy.deepcopy(b['locals'][x]))
+            st['place']['l'] = x2
+            # the rest of this block, up to the next whole definition of x
+            stop = False
+            for st2 in blk['stmts'][si:]:
+                if st2.get('k') == 'assign':
+                    _rename_place_local(st2['rv'], x, x2)
+                    if st2['place']['l'] == x and not st2['place']['p']:
+                        stop = True
+                        break
+                    _rename_place_local(st2['place'], x, x2)
+            if stop:
+                continue
+            _rename_place_local(blk['term'], x, x2)
+            for y in sub[1:]:
+                redefined = False
+                for st2 in blocks[y]['stmts']:
+                    if st2.get('k') == 'assign':
+                        _rename_place_local(st2['rv'], x, x2)
+                        if st2['place']['l'] == x and not st2['place']['p']:
+                            redefined = True
+                            break
+                        _rename_place_local(st2['place'], x, x2)
+                if redefined:
+                    # conservative: a redefinition below ends the scope on that path only; deeper blocks keep x (they see
+                    # the later definition, which gets its own fresh name when its block is processed)
+                    continue
+                _rename_place_local(blocks[y]['term'], x, x2)
 
 
 def _guarded(j, notes, name, fn, default):
@@ -1534,14 +1955,17 @@ def inline_unknown(j, known):
     notes = []
     known0 = known
     _set_adt_table(j)
+    consts_expanded = _guarded(j, notes, 'expand_adt_consts', lambda: expand_adt_consts(j), 0)
     consts_aliased = _guarded(j, notes, 'alias_consts', lambda: alias_consts(j), {})
     n_desugared = _guarded(j, notes, 'desugar_adaptors', lambda: desugar_adaptors(j), 0)
     types_renamed = _guarded(j, notes, 'rename_types_back', lambda: rename_types_back(j, load_known_adts()), {})
-    known, renamed = effective_known(j, known)
+    unwrapped = _guarded(j, notes, 'unwrap_known_wrappers', lambda: unwrap_known_wrappers(j, known), {})
+    known, renamed = effective_known(j, known, forced=unwrapped)
     _guarded(j, notes, 'rename_back', lambda: rename_back(j, renamed), None)
     fields_renamed = _guarded(j, notes, 'rename_fields_back', lambda: rename_fields_back(j, load_known_adts()), {})
     res = _guarded(j, notes, 'inline_helpers', lambda: _inline_all(j, known), {'inlined': [], 'dropped': []})
-    res.update({'renamed': renamed, 'fields_renamed': fields_renamed, 'types_renamed': types_renamed, 'adaptors_desugared': n_desugared, 'consts_aliased': consts_aliased, 'notes': notes})
+    res['tails_split'] = _guarded(j, notes, 'split_tails', lambda: split_tails(j), [])
+    res.update({'consts_expanded': consts_expanded, 'unwrapped': unwrapped, 'renamed': renamed, 'fields_renamed': fields_renamed, 'types_renamed': types_renamed, 'adaptors_desugared': n_desugared, 'consts_aliased': consts_aliased, 'notes': notes})
     return res
 
 
